@@ -366,8 +366,22 @@ Definition kills (p : prim) (c : Ct) : list op :=
 Variable wf : Ct -> Prop.
 (* `ip_ok c ip`: the insertion point names an existing position (InsertPoint's own validity check) *)
 Variable ip_ok : Ct -> ipoint -> Prop.
+(* `ins_ok c news`: the operations to insert are new (their identifiers are unused, pairwise distinct) *)
+Variable ins_ok : Ct -> list newop -> Prop.
+(* side conditions under which a primitive is ever called by the rewriter: insert with new operations,
+   replace_uses_with_if only with two different values (x_rauw_if returns early otherwise) *)
+(* `okp p`: the primitive is one the pattern set may use at all (fun _ => True for no restriction);
+   `erase_ok c o`: side condition of erasing o in state c *)
+Variable okp : prim -> Prop.
+Variable erase_ok : Ct -> op -> Prop.
+Definition prim_side (p : prim) (c : Ct) : Prop :=
+  okp p /\
+  match p with
+  | PInsert news _ => ins_ok c news | PRauwIf v t _ => v <> t | PErase o => erase_ok c o | _ => True
+  end.
+Definition okp_rauw : Prop := (forall v t, okp (PRauw v t)) /\ (forall v, okp (PEraseValue v)).
 Record LiveLaws : Prop := {
-  ll_wf_prim : forall p c, wf c -> wf (run_prim p c);
+  ll_wf_prim : forall p c, wf c -> prim_side p c -> wf (run_prim p c);
   ll_users : forall c v u, wf c -> In u (uses M c v) -> In (fst u) (alive M c);
   ll_walk : forall c rev rf o, wf c -> In o (walk M rev rf c) -> In o (alive M c);
   ll_survive : forall p c x, In x (alive M c) -> ~ In x (kills p c) -> In x (alive M (run_prim p c));
@@ -383,7 +397,7 @@ Record StructLaws : Prop := {
   sl_inserted : forall news ip c n, ip_ok c ip -> In n news -> In (no_id n) (alive M (p_insert M news ip c))
 }.
 Record InvLaws : Prop := {
-  il_wf_prim : forall p c, wf c -> wf (run_prim p c);
+  il_wf_prim : forall p c, wf c -> prim_side p c -> wf (run_prim p c);
   il_users : forall c v u, wf c -> In u (uses M c v) -> In (fst u) (alive M c);
   il_walk : forall c rev rf o, wf c -> In o (walk M rev rf c) -> In o (alive M c)
 }.
@@ -406,13 +420,22 @@ Definition replace_mid (o : op) (news : list newop) (res : option (list (option 
   fst (fst (x_rauw_all M (combine (results M c1 o) nres) c1 r1)).
 Definition live_pre (a : action) (c : Ct) (r : rw) : Prop :=
   match a with
-  | AInsert _ ip => ip_ok c (real_ip r ip)
-  | AErase o => In o (alive M c) /\ owners_alive c o
+  | AInsert news ip => ip_ok c (real_ip r ip) /\ ins_ok c news /\ okp (PInsert news (real_ip r ip))
+  | AErase o => In o (alive M c) /\ owners_alive c o /\ okp (PErase o) /\ erase_ok c o
+  | ARauw _ _ => okp_rauw
+  | ARauwIf from to p => okp (PRauwIf from to p)
   | AReplace o news res =>
-      ip_ok c (IPBefore o) /\ In o (alive M c) /\ owners_alive (replace_mid o news res c r) o
+      ip_ok c (IPBefore o) /\ ins_ok c news /\ okp (PInsert news (IPBefore o)) /\ okp_rauw /\
+      In o (alive M c) /\ owners_alive (replace_mid o news res c r) o /\
+      okp (PErase o) /\ erase_ok (replace_mid o news res c r) o
   | ANotify o => In o (alive M c)
-  | ARetype v _ => forall p, def_parent M c v = Some p -> In p (alive M c)
-  | _ => True
+  | ARetype v ty => (forall p, def_parent M c v = Some p -> In p (alive M c)) /\ okp (PRetype v ty)
+  | AInsertArg b i ty => okp (PInsertArg b i ty)
+  | AEraseArg v => okp_rauw /\ okp (PEraseArg v)
+  | AInlineBlock b ip args => okp (PInlineBlock b (real_ip r ip) args)
+  | AMoveRegion o k => okp (PMoveRegion o k)
+  | AInlineRegion o k bp => okp (PInlineRegion o k bp)
+  | ACreateBlock id bp tys => okp (PCreateBlock id bp tys)
   end.
 
 Definition sub (w : wl) (c : Ct) : Prop := forall x, In x w -> In x (alive M c).
@@ -460,13 +483,14 @@ Proof.
 Qed.
 
 Lemma x_insert_live (L : LiveLaws) recur news ip c r c1 r1 t :
-  x_insert M news ip c r = (c1, r1, t) -> wf c -> ip_ok c (real_ip r ip) ->
+  x_insert M news ip c r = (c1, r1, t) -> wf c -> ip_ok c (real_ip r ip) -> ins_ok c news ->
+  okp (PInsert news (real_ip r ip)) ->
   wf c1 /\ forall w, sub w c -> sub (handle_trace M recur t w) c1.
 Proof.
-  unfold x_insert. intros H Hwf Hip. destruct news as [|n news].
+  unfold x_insert. intros H Hwf Hip Hins Hok. destruct news as [|n news].
   - inversion H; subst. split; auto.
   - inversion H; subst. clear H. set (l := n :: news) in *.
-    split; [apply (ll_wf_prim L (PInsert l (real_ip r ip))); auto|].
+    split; [apply (ll_wf_prim L (PInsert l (real_ip r ip))); [auto | split; [exact Hok | exact Hins]]|].
     intros w Hs.
     assert (Hs1 : sub w (p_insert M l (real_ip r ip) c)).
     { apply (sub_survive L (PInsert l (real_ip r ip))); auto. }
@@ -482,10 +506,11 @@ Qed.
 
 Lemma x_erase_live (L : LiveLaws) recur o c r c1 r1 t :
   x_erase M o c r = (c1, r1, t) -> wf c -> In o (alive M c) -> owners_alive c o ->
+  okp (PErase o) -> erase_ok c o ->
   wf c1 /\ forall w, sub w c -> sub (handle_trace M recur t w) c1.
 Proof.
-  unfold x_erase. intros H Hwf Ho Hd. inversion H; subst. clear H.
-  split; [apply (ll_wf_prim L (PErase o)); auto|].
+  unfold x_erase. intros H Hwf Ho Hd Hok Heok. inversion H; subst. clear H.
+  split; [apply (ll_wf_prim L (PErase o)); [auto | split; assumption]|].
   intros w Hs x Hx. unfold handle_trace in Hx. simpl in Hx.
   set (w1 := if recur then add_operands M c (operands M c o) w else w) in *.
   assert (Hs1 : sub w1 c).
@@ -500,10 +525,10 @@ Proof.
 Qed.
 
 Lemma x_rauw_live (L : LiveLaws) recur from to c r c1 r1 t :
-  x_rauw M from to c r = (c1, r1, t) -> wf c ->
+  x_rauw M from to c r = (c1, r1, t) -> wf c -> okp_rauw ->
   wf c1 /\ forall w, sub w c -> sub (handle_trace M recur t w) c1.
 Proof.
-  unfold x_rauw. intros H Hwf.
+  unfold x_rauw. intros H Hwf [Hok1 Hok2].
   destruct (match to with Some t0 => Nat.eqb from t0 | None => false end).
   - inversion H; subst. split; auto.
   - set (p := match to with None => PEraseValue from | Some t0 => PRauw from t0 end).
@@ -511,7 +536,7 @@ Proof.
     { unfold p. destruct to; destruct (map fst (uses M c from)); inversion H; subst; auto. }
     destruct Hc1 as [-> ->].
     assert (Hk : kills p c = []) by (unfold p; destruct to; reflexivity).
-    split; [apply (ll_wf_prim L); auto|].
+    split; [apply (ll_wf_prim L); [auto | unfold p; destruct to; split; auto; exact I]|].
     intros w Hs. apply sub_modify_events.
     + apply (sub_survive L); auto.
     + intros o Ho. apply in_map_iff in Ho. destruct Ho as (u & <- & Hu).
@@ -519,16 +544,16 @@ Proof.
 Qed.
 
 Lemma x_rauw_all_live (L : LiveLaws) recur prs : forall c r c1 r1 t,
-  x_rauw_all M prs c r = (c1, r1, t) -> wf c ->
+  x_rauw_all M prs c r = (c1, r1, t) -> wf c -> okp_rauw ->
   wf c1 /\ forall w, sub w c -> sub (handle_trace M recur t w) c1.
 Proof.
-  induction prs as [|[old new] rest IH]; simpl; intros c r c1 r1 t H Hwf.
+  induction prs as [|[old new] rest IH]; simpl; intros c r c1 r1 t H Hwf Hok.
   - inversion H; subst. split; auto.
   - destruct (x_rauw M old new c r) as [[c' r'] t'] eqn:E1.
     destruct (x_rauw_all M rest c' r') as [[c'' r''] t''] eqn:E2.
     inversion H; subst. clear H.
-    destruct (x_rauw_live L recur _ _ _ _ _ _ _ E1 Hwf) as [Hwf' Hs'].
-    destruct (IH _ _ _ _ _ E2 Hwf') as [Hwf'' Hs''].
+    destruct (x_rauw_live L recur _ _ _ _ _ _ _ E1 Hwf Hok) as [Hwf' Hs'].
+    destruct (IH _ _ _ _ _ E2 Hwf' Hok) as [Hwf'' Hs''].
     split; auto. intros w Hs. rewrite handle_trace_app. auto.
 Qed.
 
@@ -551,27 +576,28 @@ Lemma exec_live (L : LiveLaws) recur a c r c1 r1 t :
   wf c1 /\ forall w, sub w c -> sub (handle_trace M recur t w) c1.
 Proof.
   intros H Hwf Hp. destruct a; simpl in H.
-  - eapply x_insert_live; eauto.
-  - destruct Hp. eapply x_erase_live; eauto.
+  - destruct Hp as [Hip [Hins Hok]]. eapply x_insert_live; eauto.
+  - destruct Hp as (Ha & Hd & Hok & Heok). eapply x_erase_live; eauto.
   - eapply x_rauw_live; eauto.
-  - unfold x_rauw_if in H. destruct (Nat.eqb from to).
+  - unfold x_rauw_if in H. destruct (Nat.eqb from to) eqn:Eft.
     + inversion H; subst. split; auto.
     + assert (Hc1 : c1 = run_prim (PRauwIf from to p) c /\
                     t = map (fun o => (EModify o, run_prim (PRauwIf from to p) c))
                             (map fst (filter (eval_upred p) (uses M c from)))).
       { destruct (map fst (filter (eval_upred p) (uses M c from))); inversion H; subst; auto. }
       destruct Hc1 as [-> ->].
-      split; [apply (ll_wf_prim L); auto|].
+      split; [apply (ll_wf_prim L); [auto | split; [exact Hp | simpl; apply Nat.eqb_neq; exact Eft]]|].
       intros w Hs. apply sub_modify_events.
       * apply (sub_survive L); auto.
       * intros o Ho. apply in_map_iff in Ho. destruct Ho as (u & <- & Hu). apply filter_In in Hu. destruct Hu as [Hu _].
         apply (ll_survive L); [eapply (ll_users L); eauto | intros []].
-  - destruct Hp as [Hip [Ho Hd]]. unfold replace_mid in Hd. unfold x_replace in H.
+  - destruct Hp as (Hip & Hins & Hoki & Hokr & Ho & Hd & Hoke & Heok).
+    unfold replace_mid in Hd, Heok. unfold x_replace in H.
     destruct (x_insert M news (IPBefore o) c (set_flag r)) as [[c' r'] t'] eqn:E1.
-    destruct (x_rauw_all M _ c' r') as [[c'' r''] t''] eqn:E2. simpl in Hd.
+    destruct (x_rauw_all M _ c' r') as [[c'' r''] t''] eqn:E2. simpl in Hd, Heok.
     destruct (x_erase M o c'' r'') as [[c3 r3] t4] eqn:E3. inversion H; subst. clear H.
-    destruct (x_insert_live L recur _ _ _ _ _ _ _ E1 Hwf Hip) as [Hwf1 Hs1].
-    destruct (x_rauw_all_live L recur _ _ _ _ _ _ E2 Hwf1) as [Hwf2 Hs2].
+    destruct (x_insert_live L recur _ _ _ _ _ _ _ E1 Hwf Hip Hins Hoki) as [Hwf1 Hs1].
+    destruct (x_rauw_all_live L recur _ _ _ _ _ _ E2 Hwf1 Hokr) as [Hwf2 Hs2].
     assert (Ho1 : In o (alive M c')).
     { unfold x_insert in E1. destruct news; inversion E1; subst; auto.
       apply (ll_survive L (PInsert (n :: news) (real_ip (set_flag r) (IPBefore o)))); auto. }
@@ -579,7 +605,7 @@ Proof.
     { match type of E2 with x_rauw_all M ?prs _ _ = _ =>
         pose proof (alive_survive_rauw_all L prs c' r' o Ho1) as G end.
       rewrite E2 in G. exact G. }
-    destruct (x_erase_live L recur _ _ _ _ _ _ E3 Hwf2 Ho2 Hd) as [Hwf3 Hs3].
+    destruct (x_erase_live L recur _ _ _ _ _ _ E3 Hwf2 Ho2 Hd Hoke Heok) as [Hwf3 Hs3].
     split; auto. intros w Hs.
     rewrite handle_trace_app. simpl app. rewrite handle_trace_cons, handle_trace_app.
     apply Hs3. apply Hs2.
@@ -595,45 +621,48 @@ Proof.
     { induction us as [|u us IHu]; simpl; intros w1 Hin Hw1; auto.
       apply IHu; auto. apply sub_push; auto. eapply (ll_users L); eauto. }
     apply G; auto.
-  - unfold x_retype in H. inversion H; subst. clear H. simpl in Hp.
-    split; [apply (ll_wf_prim L (PRetype v ty)); auto|].
+  - unfold x_retype in H. inversion H; subst. clear H. simpl in Hp. destruct Hp as [Hp Hok].
+    split; [apply (ll_wf_prim L (PRetype v ty)); [auto | split; [exact Hok | exact I]]|].
     intros w Hs. apply (sub_survive L (PRetype v ty)); auto.
     destruct (def_parent M c v) as [p|] eqn:Ep; auto.
     unfold handle_trace. simpl. destruct recur; auto. apply sub_push; auto.
   - unfold x_insert_arg in H. inversion H; subst.
-    split; [apply (ll_wf_prim L (PInsertArg b idx ty)); auto|].
+    split; [apply (ll_wf_prim L (PInsertArg b idx ty)); [auto | split; [exact Hp | exact I]]|].
     intros w Hs. apply (sub_survive L (PInsertArg b idx ty)); auto.
   - unfold x_erase_arg in H. destruct (x_rauw M v None c (set_flag r)) as [[c' r'] t'] eqn:E.
     inversion H; subst. clear H.
-    destruct (x_rauw_live L recur _ _ _ _ _ _ _ E Hwf) as [Hwf' Hs'].
-    split; [apply (ll_wf_prim L (PEraseArg v)); auto|].
+    destruct Hp as [Hokr Hoka].
+    destruct (x_rauw_live L recur _ _ _ _ _ _ _ E Hwf Hokr) as [Hwf' Hs'].
+    split; [apply (ll_wf_prim L (PEraseArg v)); [auto | split; [exact Hoka | exact I]]|].
     intros w Hs. apply (sub_survive L (PEraseArg v)); auto.
   - unfold x_inline_block in H. inversion H; subst.
-    split; [apply (ll_wf_prim L (PInlineBlock b (real_ip r ip) args)); auto|].
+    split; [apply (ll_wf_prim L (PInlineBlock b (real_ip r ip) args)); [auto | split; [exact Hp | exact I]]|].
     intros w Hs. apply (sub_survive L (PInlineBlock b (real_ip r ip) args)); auto.
   - unfold x_move_region in H. inversion H; subst.
-    split; [apply (ll_wf_prim L (PMoveRegion o r0)); auto|].
+    split; [apply (ll_wf_prim L (PMoveRegion o r0)); [auto | split; [exact Hp | exact I]]|].
     intros w Hs. apply (sub_survive L (PMoveRegion o r0)); auto.
   - unfold x_inline_region in H. inversion H; subst.
-    split; [apply (ll_wf_prim L (PInlineRegion o r0 bp)); auto|].
+    split; [apply (ll_wf_prim L (PInlineRegion o r0 bp)); [auto | split; [exact Hp | exact I]]|].
     intros w Hs. apply (sub_survive L (PInlineRegion o r0 bp)); auto.
   - unfold x_notify in H. inversion H; subst. simpl in Hp. split; auto.
     intros w Hs. unfold handle_trace. simpl. destruct recur; auto. apply sub_push; auto.
   - unfold x_create_block in H. inversion H; subst.
-    split; [apply (ll_wf_prim L (PCreateBlock id bp tys)); auto|].
+    split; [apply (ll_wf_prim L (PCreateBlock id bp tys)); [auto | split; [exact Hp | exact I]]|].
     intros w Hs. apply (sub_survive L (PCreateBlock id bp tys)); auto.
 Qed.
 
 (* pattern obligations *)
 Definition steps_pre (steps : list (pstep M)) : Prop :=
-  forall f, In (PAct M f) steps -> forall c r a, wf c -> f c r = Some a -> live_pre a c r.
+  (forall f, In (PAct M f) steps -> forall c r a, wf c -> f c r = Some a -> live_pre a c r) /\
+  (forall o, In (PBumpIfFlag M o) steps -> okp (PBump o)).
 Definition pat_pre (p : pattern M) : Prop := forall c o, steps_pre (p c o).
 Definition matcher_pre (m : matcher M) : Prop :=
   match m with
   | MSingle _ p => pat_pre p
   | MGreedy _ dce ps =>
       (forall p, In p ps -> pat_pre p) /\
-      (dce = true -> forall c o, wf c -> In o (alive M c) -> trivially_dead M c o = true -> owners_alive c o)
+      (dce = true -> forall c o, wf c -> In o (alive M c) -> trivially_dead M c o = true ->
+                     owners_alive c o /\ okp (PErase o) /\ erase_ok c o)
   end.
 
 Lemma run_steps_live (L : LiveLaws) recur steps : forall c r w ev c1 r1 w1 ev1,
@@ -642,16 +671,17 @@ Lemma run_steps_live (L : LiveLaws) recur steps : forall c r w ev c1 r1 w1 ev1,
 Proof.
   induction steps as [|s rest IH]; simpl; intros c r w ev c1 r1 w1 ev1 Hp H Hwf Hs.
   - inversion H; subst; auto.
-  - assert (Hp' : steps_pre rest) by (intros f Hin; apply Hp; right; exact Hin).
+  - assert (Hp' : steps_pre rest).
+    { destruct Hp as [Hp1 Hp2]. split; [intros f Hin; apply Hp1; right; exact Hin | intros o' Hin; apply Hp2; right; exact Hin]. }
     destruct s as [f|o].
     + destruct (f c r) as [a|] eqn:Ef.
       * destruct (exec M true a c r) as [[c' r'] t] eqn:E.
-        assert (Hpre : live_pre a c r) by (eapply Hp; eauto; left; reflexivity).
+        assert (Hpre : live_pre a c r) by (eapply (proj1 Hp); eauto; left; reflexivity).
         destruct (exec_live L recur _ _ _ _ _ _ E Hwf Hpre) as [Hwf' Hs'].
         eapply IH; eauto.
       * eapply IH; eauto.
     + eapply IH; eauto.
-      * destruct (flag r); auto. apply (ll_wf_prim L (PBump o)); auto.
+      * destruct (flag r); auto. apply (ll_wf_prim L (PBump o)); [auto | split; [apply (proj2 Hp); left; reflexivity | exact I]].
       * destruct (flag r); auto. apply (sub_survive L (PBump o)); auto.
 Qed.
 
@@ -679,7 +709,8 @@ Proof.
     + destruct (trivially_dead M c o) eqn:Ed.
       * destruct (x_erase M o c {| flag := false; dip := IPBefore o |}) as [[c' r'] t] eqn:E.
         inversion H; subst. clear H.
-        destruct (x_erase_live L recur _ _ _ _ _ _ E Hwf Ho (Hd eq_refl c o Hwf Ho Ed)) as [Hwf' Hs'].
+        destruct (Hd eq_refl c o Hwf Ho Ed) as (Hd1 & Hd2 & Hd3).
+        destruct (x_erase_live L recur _ _ _ _ _ _ E Hwf Ho Hd1 Hd2 Hd3) as [Hwf' Hs'].
         unfold x_erase in E. inversion E; subst. split; [exact Hwf' | exact (Hs' w Hs)].
       * eapply run_pats_live; eauto.
     + eapply run_pats_live; eauto.
